@@ -15,6 +15,7 @@ package main
 // over-burst is an error), C14 (decisions of a source equal its solo run; eviction victim has minimal expiry; others untouched).
 
 import (
+	"context"
 	"fmt"
 	"math/rand"
 	"net/http"
@@ -48,6 +49,7 @@ type limiter struct {
 	tl    *ratelimit.TokenLimiter
 	calls int
 	nreq  int // requests sent so far (every seventh carries an already cancelled context)
+	stuck bool
 
 	front     *ratelimit.TokenLimiter // the entry point: a limiter in front of tl
 	decoy     *ratelimit.TokenLimiter
@@ -155,7 +157,23 @@ func (l *limiter) requestWith(src, amount, sel int64) (int64, int64, bool, strin
 	req = hlib.Abandoned(hlib.Vary(req, l.nreq), l.nreq%7 == 0)
 	rec := httptest.NewRecorder()
 	before := l.calls
-	l.front.ServeHTTP(rec, req)
+	if l.nreq%11 == 5 && !l.stuck {
+		// a request with a deadline an hour away (a timeout middleware in front): the limiter decides at once all the same
+		ctx, cancel := context.WithTimeout(req.Context(), time.Hour)
+		defer cancel()
+		req = req.WithContext(ctx)
+		hlib.Count("requests_with_a_deadline", 1)
+		done := make(chan struct{})
+		go func() { defer close(done); l.front.ServeHTTP(rec, req) }()
+		select {
+		case <-done:
+		case <-time.After(3 * time.Second):
+			l.stuck = true // the goroutine is left behind; this limiter takes no more deadline requests
+			return 3, 0, false, "a request whose context has a deadline an hour away was not answered within 3 s (frozen clock): the limiter waits instead of deciding"
+		}
+	} else {
+		l.front.ServeHTTP(rec, req)
+	}
 	ran := l.calls == before+1
 	switch rec.Code {
 	case 200:
@@ -329,9 +347,41 @@ func genDynamic(rng *rand.Rand, tier string) hlib.History {
 	return h
 }
 
+// genLongPeriods: daily and hourly quotas. One rate with a period of hours and a burst that takes more than a day to
+// refill; sources spend it, stay away for hours up to a day and a half, come back: an entry lives 10 periods + 1 s, so
+// none is forgotten meanwhile and nobody gets a second burst early.
+func genLongPeriods(rng *rand.Rand) hlib.History {
+	var h hlib.History
+	hour := int64(3600e9)
+	period := hlib.Pick(rng, 3*hour, 6*hour, 24*hour)
+	avg := hlib.Pick(rng, 1, 2, 10, 100)
+	burst := avg * hlib.Pick(rng, 1, 3, 9, 12)
+	start := int64(1600000000)*1e9 + rng.Int63n(3e9)
+	h.Cfg = []int64{65536, start, 1, period, avg, burst}
+	nsrc := 1 + rng.Intn(3)
+	for len(h.Ops) < 30+rng.Intn(40) {
+		switch r := rng.Intn(10); {
+		case r < 6:
+			h.Ops = append(h.Ops, []int64{0, int64(rng.Intn(nsrc)), 1 + int64(rng.Intn(3)), -1})
+		case r < 7: // spend what is there
+			src := int64(rng.Intn(nsrc))
+			for k := int64(0); k < burst && k < 40; k++ {
+				h.Ops = append(h.Ops, []int64{0, src, 1, -1})
+			}
+		default:
+			h.Ops = append(h.Ops, []int64{1, hlib.Pick(rng, hour, 5*hour, 23*hour, 24*hour+1e9, 25*hour, 30*hour, 36*hour) + rng.Int63n(2e9)})
+		}
+	}
+	hlib.Count("long_period_histories", 1)
+	return h
+}
+
 func (c *rlComp) Gen(rng *rand.Rand, idx int, tier string, targeted bool) hlib.History {
 	if !targeted && rng.Intn(6) == 0 {
 		return genDynamic(rng, tier)
+	}
+	if !targeted && rng.Intn(15) == 0 {
+		return genLongPeriods(rng)
 	}
 	var h hlib.History
 	nr := 1 + rng.Intn(3)
@@ -610,6 +660,9 @@ func (c *rlComp) Run(h *hlib.History) ([]hlib.Mon, bool) {
 			st.decisions = append(st.decisions, class)
 			if problem != "" {
 				add("C13", step, "source %d: %s", src, problem)
+			}
+			if class == 3 {
+				add("C03", step, "source %d: %s", src, problem)
 			}
 			if ran != (class == 0) {
 				add("C03", step, "source %d: protected handler ran=%v but response class %d", src, ran, class)
